@@ -1209,3 +1209,22 @@ Proof.
     rewrite F1, F2, Hae, Hwn. change (st_win s0) with (st_win s). rewrite <- Hw.
     split; reflexivity.
 Qed.
+
+Lemma WsRel_nil k s ws : k_params k = [] -> WsRel k s ws.
+Proof. intros E p w Hin. rewrite E in Hin. destruct Hin. Qed.
+
+Definition PInv (k : case) (s : state) : Prop := k_params k <> [] -> PrevInv s.
+
+Lemma adv_ws k : forall dts s ws, Inv s -> Strict s -> st_params s = k_params k -> NoDup (map ap_denom (k_params k)) ->
+  PInv k s -> WsRel k s ws ->
+  WsRel k (fold_left begin_block dts s) (wticks k ws dts) /\ PInv k (fold_left begin_block dts s).
+Proof.
+  unfold wticks. induction dts as [|dt dts IH]; intros s ws I S HP Hnd HPv WR; simpl; [auto|].
+  destruct (begin_block_spec s dt I S) as (I1 & S1 & _ & HP1 & _).
+  destruct (k_params k) as [|p0 P] eqn:EP.
+  - split; [apply WsRel_nil; exact EP|]. intros Hne. unfold PInv in *. rewrite EP in Hne. congruence.
+  - rewrite <- EP in *.
+    assert (Hne : k_params k <> []) by (rewrite EP; discriminate).
+    destruct (begin_block_ws k s dt ws I HP Hnd (HPv Hne) WR) as [WR1 HPv1].
+    apply IH; [exact I1|exact S1|rewrite HP1; exact HP|exact Hnd|intros _; exact (HPv1 Hne)|exact WR1].
+Qed.
